@@ -89,3 +89,34 @@ Definition sp_is_win_prob_ind (ws : list R) (i : nat) (p : R) : Prop :=
               | u :: vs => sp_beats_ind u (nth i ws 0) vs (sp_others ws i)
               | [] => 0
               end) p.
+
+(* ---- sampleNum = 2: "i has the largest key and j the second largest" ----
+   (the first two picks of weighted sampling WITHOUT replacement: i is drawn with
+   probability w_i / W, then j among the rest with probability w_j / (W - w_i)) *)
+Definition sp_wins2 (us ws : list R) (i j : nat) : Prop :=
+  sp_key (nth j us 0) (nth j ws 0) < sp_key (nth i us 0) (nth i ws 0) /\
+  forall l, (l < length ws)%nat -> l <> i -> l <> j ->
+    sp_key (nth l us 0) (nth l ws 0) < sp_key (nth j us 0) (nth j ws 0).
+
+(* the weights of the items other than i and j *)
+Definition sp_others2 (ws : list R) (i j : nat) : list R :=
+  sp_others (sp_others ws i) (if (j <? i)%nat then j else pred j).
+
+(* indicator of the event on the rearranged draw  u_i :: u_j :: the others *)
+Definition sp_pair_ind (wi wj : R) (wo : list R) (t : list R) : R :=
+  match t with
+  | u :: v :: xs => sp_lt_ind (sp_key v wj) (sp_key u wi) * sp_beats_ind v wj xs wo
+  | _ => 0
+  end.
+
+Definition sp_is_pair_prob_ind (ws : list R) (i j : nat) (p : R) : Prop :=
+  sp_is_iint (S (S (length (sp_others2 ws i j))))
+             (sp_pair_ind (nth i ws 0) (nth j ws 0) (sp_others2 ws i j)) p.
+
+(* the same with the integrals over the other items already replaced by the product of
+   the interval lengths v^(w_l/w_j): a double integral *)
+Definition sp_pair_prob (ws : list R) (i j : nat) : R :=
+  RInt (fun u =>
+    RInt (fun v => sp_lt_ind (sp_key v (nth j ws 0)) (sp_key u (nth i ws 0)) *
+                   sp_prod (map (fun wl => Rpower v (wl / nth j ws 0)) (sp_others2 ws i j)))
+         0 1) 0 1.
